@@ -74,3 +74,11 @@ case("related-names-tail-second", pd.DataFrame({**base(6), "fiscal_year": np.arr
 case("related-names-tail-first", pd.DataFrame({**base(6), "year": np.array([1999, 2000, 1999, 2000, 1999, 2000], dtype="int64"),
                                              "fiscal_year": np.array([True, False, True, True, False, False])}), ["year", "fiscal_year"], "hive", None,
      "partition_on=['year', 'fiscal_year'] (the shorter name first)", "regression guard")
+# final: white space at the ends of text keys, and pairs differing only by it (seeded C08-9 stripped every path part) - fixed block, every run
+case("whitespace-keys-hive", pd.DataFrame({**base(8), "k": pd.Series(["x", "x ", "y\t", "x", "x ", "z ", "y\t", "x  "], dtype=object)}), ["k"], "hive", 3,
+     "hive text keys ending with ' ' / tab, 'x' vs 'x ' vs 'x  ': distinct directories, values come back unstripped", "regression guard")
+case("whitespace-keys-drill", pd.DataFrame({**base(8), "k": pd.Series([" x", "x", "x ", "\ty", "x", " x", "y\t", "x "], dtype=object)}), ["k"], "drill", None,
+     "drill text keys beginning / ending with ' ' / tab, ' x' vs 'x' vs 'x '", "regression guard")
+case("whitespace-keys-categorical", pd.DataFrame({**base(6), "c": pd.Categorical(["a ", "a", " b", "a ", "a", " b"], categories=["a", "a ", " b", "b"]),
+                                                 "k": pd.Series(["u ", "u", "u ", "u", "u ", "u"], dtype=object)}), ["c", "k"], "hive", 2,
+     "categorical labels and text keys differing only by white space at an end, two levels", "regression guard")
